@@ -26,6 +26,7 @@ Apply(e) ==
     [] e.op = "set_cut" -> DoCutSet(st, e.k, e.v, e.ok = 1)
     [] e.op = "set_kill" -> DoCutSet(st, e.k, e.v, FALSE)
     [] e.op \in {"sched", "stress"} -> [st EXCEPT !.cand[e.k] = {Absent} \cup {v \in 0..8 : TRUE}]
+    [] e.op = "encstress" -> [st EXCEPT !.cand = [k \in DOMAIN st.cand |-> {e.v}]]
     [] e.op \in {"del", "api_del"} -> DoDel(st, e.k, e.ok = 1)
     [] e.op = "tamper"  -> IF e.ok = 1 THEN DoTamper(st, e.k) ELSE st
     [] e.op = "reopen"  -> DoMode(st, "ok")
@@ -67,6 +68,7 @@ M15 ==
 \* C17: encryption at rest
 M17 == IsKv =>
   CASE E.op = "set" -> B.enc => (E.plain = 0 /\ E.samect = 0)
+    [] E.op = "encstress" -> E.samect = 0
     [] E.op = "get" -> GetSecretOK(B, E.k, E.ok = 1, E.rv)
     [] E.op = "open_enc" -> (E.expect = 0 => E.ok = 0) /\ (E.expect = 1 => E.ok = 1 /\ E.plain = 0)
     [] OTHER -> TRUE
@@ -77,7 +79,7 @@ Bad == { p[1] : p \in { q \in Mons : ~q[2] } }
 NT == IF ~IsKv THEN {} ELSE
       (IF E.op \in {"get", "api_get", "del", "api_del", "keys", "api_list"} THEN {"C14"} ELSE {})
       \cup (IF (E.op = "get" /\ Cardinality(B.cand[E.k]) > 1) \/ E.op \in {"sched", "stress"} THEN {"C15"} ELSE {})
-      \cup (IF (B.enc /\ E.op \in {"set", "get"} /\ (E.op = "set" \/ E.k \in B.tampered \/ B.mode # "ok")) \/ E.op = "open_enc" THEN {"C17"} ELSE {})
+      \cup (IF (B.enc /\ E.op \in {"set", "get"} /\ (E.op = "set" \/ E.k \in B.tampered \/ B.mode # "ok")) \/ E.op \in {"open_enc", "encstress"} THEN {"C17"} ELSE {})
 
 Record ==
   /\ (Bad = {} \/ ( /\ PrintT(<<"VIOL", scn, last.line, Bad, E.op>>)
